@@ -203,31 +203,48 @@ func checkRange(c *core.Ctx) {
 	if post != iv+"++" && post != iv+" += 1" && post != iv+" = "+iv+" + 1" {
 		bad = "the counter must advance by one; post statement is `" + post + "`"
 	}
-	// body: one produce of NewRecord([NewInt(i)], false, zero time)
-	produces := 0
-	ast.Inspect(loop.Body, func(n ast.Node) bool {
-		call, ok := n.(*ast.CallExpr)
-		if !ok || p.CalleeName(info, call) != "value:produce" {
-			return true
+	// body: on every path, one produce of a record holding exactly Int(counter), an addition. The body is interpreted
+	// with the counter symbolic, so records built in a local or a helper count the same.
+	{
+		in := newInterp(p, fn)
+		in.Hooks.Call = chainCall(recordCtorHook, ctorHook(typeIDs(p)), func(st *absint.State, call *ast.CallExpr, callee string, recv absint.Val, args []absint.Val) (absint.Val, bool) {
+			if callee == "value:produce" {
+				st.Emit("PRODUCE", call.Pos(), args...)
+				return absint.Nil{}, true
+			}
+			return nil, false
+		}, errorfHook)
+		outs, err := in.Run(&ast.FuncType{Params: &ast.FieldList{}, Results: fn.Decl.Type.Results}, nil, loop.Body, nil, "")
+		if err != nil {
+			c.Unknown("RANGE", key, loop.Pos(), err.Error())
+			return
 		}
-		produces++
-		if len(call.Args) == 2 {
-			rec, ok := call.Args[1].(*ast.CallExpr)
-			if !ok || p.CalleeName(info, rec) != "execution.NewRecord" || len(rec.Args) != 3 {
-				bad = "range must produce execution.NewRecord(…)"
-				return true
+		for _, o := range outs {
+			produces := 0
+			for _, e := range o.Events {
+				if e.Name != "PRODUCE" || len(e.Args) != 2 {
+					continue
+				}
+				produces++
+				vals, retr := o.Field(e.Args[1], "Values"), o.Field(e.Args[1], "Retraction")
+				if vals == nil || retr == nil {
+					bad = "range must produce execution.NewRecord(…); it produces " + o.Show(e.Args[1])
+					continue
+				}
+				if l, ok := vals.(absint.List); !ok || len(l.Elems) != 1 || o.Field(l.Elems[0], "Int") == nil || o.Field(l.Elems[0], "Int").Canon() != iv {
+					bad = "each record must hold exactly the counter as an Int: " + o.Show(vals)
+				}
+				if !absint.IsFalse(retr) {
+					bad = "range emits additions, not retractions"
+				}
 			}
-			if core.ExprStr(rec.Args[0]) != "[]octosql.Value{octosql.NewInt("+iv+")}" {
-				bad = "each record must hold exactly the counter: " + core.ExprStr(rec.Args[0])
-			}
-			if core.ExprStr(rec.Args[1]) != "false" {
-				bad = "range emits additions, not retractions"
+			if produces != 1 {
+				bad = fmt.Sprintf("the loop body must produce exactly one record per iteration (%d produce calls on a path)", produces)
 			}
 		}
-		return true
-	})
-	if produces != 1 {
-		bad = fmt.Sprintf("the loop body must produce exactly one record per iteration (%d produce calls)", produces)
+		if len(outs) == 0 {
+			bad = "the loop body has no outcome"
+		}
 	}
 	// the counter is not modified in the body
 	ast.Inspect(loop.Body, func(n ast.Node) bool {
